@@ -51,11 +51,13 @@ def check(program, r, m=None):
     for name, reads, ending in trace.attempts:
         for kind, key, outcome, _ in reads:
             if outcome in ('unmet', 'missing', 'nospec'):
-                waited.setdefault(name, set()).add((kind, key))
+                # an input of a form that is not yet part of the solve costs two attempts: one that makes the solver
+                # declare the input (immediate retry) and one that registers the wait
+                waited.setdefault(name, set()).add((kind, key, 'declare' if outcome == 'nospec' else 'wait'))
     for name, n in trace.attempt_counts().items():
         bound = 2 + len(waited.get(name, ()))
         if n > bound and not isinstance(r.exc, RecursionError):
-            out.append(('C06', 'evaluated-too-often', f'{name} was evaluated {n} times but waited for only {len(waited.get(name, ()))} distinct names'))
+            out.append(('C06', 'evaluated-too-often', f'{name} was evaluated {n} times but waited for only {len(waited.get(name, ()))} distinct names/declarations'))
             break
     if isinstance(r.exc, RecursionError):
         out.append(('C06', 'unbounded-recursion', f'solve() ended in RecursionError after {len(trace.attempts)} evaluations'))
